@@ -12,7 +12,7 @@ pub struct FlattenConfigObject {
 impl FlattenConfigObject {
     pub fn parse(luals_json: Value) -> Self {
         let mut config = HashMap::new();
-        flatten_object("", &luals_json, &mut config);
+        flatten_object(None, &luals_json, &mut config);
         Self { config }
     }
 
@@ -21,20 +21,20 @@ impl FlattenConfigObject {
     }
 }
 
-fn flatten_object(prefix: &str, val: &Value, config: &mut HashMap<String, Value>) {
+/// `prefix` is the dotted path of `val` (`None` at the top level of the file; an empty key is a path like any other).
+fn flatten_object(prefix: Option<&str>, val: &Value, config: &mut HashMap<String, Value>) {
     match val {
         Value::Object(map) => {
             for (k, v) in map.iter() {
-                let new_key = if prefix.is_empty() {
-                    k.to_owned()
-                } else {
-                    format!("{}.{}", prefix, k)
+                let new_key = match prefix {
+                    None => k.to_owned(),
+                    Some(prefix) => format!("{}.{}", prefix, k),
                 };
-                flatten_object(&new_key, v, config);
+                flatten_object(Some(&new_key), v, config);
             }
         }
         _ => {
-            config.insert(prefix.to_string(), val.clone());
+            config.insert(prefix.unwrap_or("").to_string(), val.clone());
         }
     }
 }
